@@ -225,7 +225,7 @@ def ir_json(run, src_text, name, ndebug=True, extra=()):
     """witness source text -> path of IR JSON (clang -O0 -g -emit-llvm | opt mem2reg | yir)."""
     os.makedirs(CACHE, exist_ok=True)
     flags = base_flags(run, ndebug, extra)
-    key = _sha("ir", run.header_hash(), src_text, " ".join(flags).replace(run.inc, "@INC"), _tool_hash(YIR))
+    key = _sha("ir2", run.header_hash(), src_text, " ".join(flags).replace(run.inc, "@INC"), _tool_hash(YIR))
     outp = os.path.join(CACHE, "%s.%s.ir.json" % (name, key))
     if os.path.exists(outp) and not os.environ.get("YV_NOCACHE"):
         return outp
@@ -235,7 +235,7 @@ def ir_json(run, src_text, name, ndebug=True, extra=()):
     with open(src, "w") as f:
         f.write(src_text)
     ll = os.path.join(wd, "w.ll")
-    r = sh([CXX] + flags + ["-O0", "-Xclang", "-disable-O0-optnone", "-g", "-S", "-emit-llvm", src, "-o", ll])
+    r = sh([CXX] + flags + ["-O0", "-Xclang", "-disable-O0-optnone", "-fno-discard-value-names", "-g", "-S", "-emit-llvm", src, "-o", ll])
     if r.returncode != 0:
         raise AnalysisBroken("witness %s does not compile to IR:\n%s" % (name, r.stderr[-3000:]))
     llm = os.path.join(wd, "wm.ll")
